@@ -39,3 +39,109 @@ pub trait Revision {
     /// Get the revision.
     fn rev(&self) -> u64;
 }
+
+/// Public entries to the revertible buffer of an in-memory [`Market`](super::Market), used only by
+/// the solver-based checks in `/verif` (`--cfg gmsol_verif`); thin wrappers only.
+#[cfg(gmsol_verif)]
+pub mod verif_hooks {
+    use anchor_lang::prelude::*;
+    use gmsol_model::PoolKind;
+
+    use super::Revision;
+    use crate::{
+        events::EventEmitter,
+        states::{
+            market::{Clocks, Market, Pool},
+            OtherState,
+        },
+    };
+
+    /// See `RevertibleBuffer::start_revertible_operation`.
+    pub fn start(market: &mut Market) {
+        market.buffer.start_revertible_operation()
+    }
+
+    /// See `RevertibleBuffer::rev`.
+    pub fn rev(market: &Market) -> u64 {
+        market.buffer.rev()
+    }
+
+    /// See `RevertibleBuffer::pool`.
+    pub fn pool(market: &Market, kind: PoolKind) -> Option<&Pool> {
+        let Market { state, buffer, .. } = market;
+        buffer.pool(kind, state)
+    }
+
+    /// See `RevertibleBuffer::pool_mut`.
+    pub fn pool_mut(market: &mut Market, kind: PoolKind) -> Option<&mut Pool> {
+        let Market { state, buffer, .. } = market;
+        buffer.pool_mut(kind, state)
+    }
+
+    /// See `RevertibleBuffer::clocks`.
+    pub fn clocks(market: &Market) -> &Clocks {
+        let Market { state, buffer, .. } = market;
+        buffer.clocks(state)
+    }
+
+    /// See `RevertibleBuffer::clocks_mut`.
+    pub fn clocks_mut(market: &mut Market) -> &mut Clocks {
+        let Market { state, buffer, .. } = market;
+        buffer.clocks_mut(state)
+    }
+
+    /// See `RevertibleBuffer::other`.
+    pub fn other(market: &Market) -> &OtherState {
+        let Market { state, buffer, .. } = market;
+        buffer.other(state)
+    }
+
+    /// See `RevertibleBuffer::other_mut`.
+    pub fn other_mut(market: &mut Market) -> &mut OtherState {
+        let Market { state, buffer, .. } = market;
+        buffer.other_mut(state)
+    }
+
+    /// See `RevertibleBuffer::commit_to_storage`.
+    pub fn commit<'info>(market: &mut Market, event_authority: &AccountInfo<'info>, bump: u8) {
+        let Market {
+            meta,
+            state,
+            buffer,
+            ..
+        } = market;
+        buffer.commit_to_storage(
+            state,
+            &meta.market_token_mint,
+            &EventEmitter::new(event_authority, bump),
+        )
+    }
+
+    /// The stored (committed) clocks.
+    pub fn storage_clocks(market: &Market) -> &Clocks {
+        &market.state.clocks
+    }
+
+    /// The stored (committed) other state.
+    pub fn storage_other(market: &Market) -> &OtherState {
+        &market.state.other
+    }
+
+    /// Revisions of the stored and buffered copies of a pool: `(storage, buffer)`.
+    pub fn pool_revs(market: &Market, kind: PoolKind) -> Option<(u64, u64)> {
+        Some((
+            market.state.pools.get(kind)?.rev(),
+            market.buffer.verif_pool_rev(kind)?,
+        ))
+    }
+
+    /// Revisions of the stored and buffered clocks: `(storage, buffer)`.
+    pub fn clocks_revs(market: &Market) -> (u64, u64) {
+        (market.state.clocks.rev(), market.buffer.verif_clocks_rev())
+    }
+
+    /// Revisions of the stored and buffered other state: `(storage, buffer)`.
+    pub fn other_revs(market: &Market) -> (u64, u64) {
+        (market.state.other.rev(), market.buffer.verif_other_rev())
+    }
+}
